@@ -45,8 +45,14 @@ def run(ck):
                 break
         ck.evaluations += sub.evaluations
         ck.distinct.update(sub.distinct)
-        if sub.violations:
+        # the recorded finding is "a masked element is reported as evaluated" (a wrong flag in the table); a raise, a result of another
+        # length or type, or a flag hidden behind a mask on this carrier is something else and is reported as itself
+        tables = [v for v in sub.violations if v['rule'].endswith('.table') and not v['key'].endswith(':flag-masked')]
+        for v in sub.violations:
+            if v not in tables:
+                ck.violate(v['rule'], v['key'] + ':masked-array-input', v['what'])
+        if tables:
             ck.violate('C02.masked-array', f'{fn_key(case)}:masked-array:mask-dropped-by-normaliser',
-                       f'{name}: a masked element of a numpy masked-array input is reported as evaluated; e.g. {sub.violations[0]["what"][:260]}')
+                       f'{name}: a masked element of a numpy masked-array input is reported as evaluated; e.g. {tables[0]["what"][:260]}')
         else:
             ck.hold('C02.masked-array', name)
